@@ -60,9 +60,9 @@ type CAOpts struct {
 	RSA       int // 0: ECDSA; n>0: RSA key number n-1 of the pool
 	Curve     elliptic.Curve
 	Ed25519   bool
-	NoKeyUse  bool           // omit the keyUsage extension
-	KeyUsage  x509.KeyUsage  // default certSign|crlSign
-	NotCA     bool           // issue as end-entity-like certificate (no basicConstraints CA)
+	NoKeyUse  bool          // omit the keyUsage extension
+	KeyUsage  x509.KeyUsage // default certSign|crlSign
+	NotCA     bool          // issue as end-entity-like certificate (no basicConstraints CA)
 	EKU       []x509.ExtKeyUsage
 	Serial    int64
 	SKI       []byte
@@ -191,24 +191,24 @@ func NewCA(parent *CA, o CAOpts) *CA {
 }
 
 const (
-	akiDefault     = iota // keyId only (what CreateCertificate emits when the parent has an SKI)
-	akiAbsent             // no AKI extension
-	akiIssuerSer          // authorityCertIssuer + authorityCertSerialNumber
-	akiBoth               // keyId + issuer + serial
-	akiForeignKey         // keyId of some other key
-	akiSerialOnly         // authorityCertSerialNumber without authorityCertIssuer (malformed, seen in the wild)
-	akiURISerial          // authorityCertIssuer holding a URI instead of a directoryName + serial
+	akiDefault    = iota // keyId only (what CreateCertificate emits when the parent has an SKI)
+	akiAbsent            // no AKI extension
+	akiIssuerSer         // authorityCertIssuer + authorityCertSerialNumber
+	akiBoth              // keyId + issuer + serial
+	akiForeignKey        // keyId of some other key
+	akiSerialOnly        // authorityCertSerialNumber without authorityCertIssuer (malformed, seen in the wild)
+	akiURISerial         // authorityCertIssuer holding a URI instead of a directoryName + serial
 )
 
 type EEOpts struct {
-	CN      string
-	Serial  *big.Int
-	CDP     []string
-	OCSP    []string
-	AKI     int
-	Subject []byte // raw subject DN override
-	RSA     int
-	NoSKI   bool // IssueWithKey: no subjectKeyIdentifier (what most CAs issue for end entities)
+	CN         string
+	Serial     *big.Int
+	CDP        []string
+	OCSP       []string
+	AKI        int
+	Subject    []byte // raw subject DN override
+	RSA        int
+	NoSKI      bool // IssueWithKey: no subjectKeyIdentifier (what most CAs issue for end entities)
 	NoKeyUsage bool // IssueWithKey: no keyUsage extension at all (legal; such a key is not restricted by that extension)
 }
 
